@@ -59,8 +59,7 @@ func observeDo(rec *vr.Rec, reps int) {
 			cc = t
 			inject = func(m ref.Msg) { sc.Feed(ref.EncodeTCP(m)) }
 			sent = func() []ref.Msg { ms, _ := ref.ParseTCPStream(sc.Written()); return ms }
-			inject(ref.Msg{Code: 7<<5 | 1, Opts: []ref.Opt{{ID: 2, Val: ref.Uint(1152)}, {ID: 4, Val: nil}}})
-			sc.WaitConsumed(2 * time.Second)
+			sim.AnnounceBlockwise(sc, t, ref.EncodeTCP(ref.Msg{Code: 7<<5 | 1, Opts: []ref.Opt{{ID: 2, Val: ref.Uint(1152)}, {ID: 4, Val: nil}}}))
 		}
 		// the peer: serves /obsdo block by block, answers everything else with the path as body
 		stop := make(chan struct{})
@@ -129,7 +128,18 @@ func observeDo(rec *vr.Rec, reps int) {
 			return true
 		}
 		if err != nil {
-			rec.Violation("C03/"+kind+"/observe-do/call-failed", err.Error(), c)
+			nreq, lastNum := 0, -1
+			for _, m := range sent() {
+				if m.Code == 1 && ref.PathOf(m) == "/obsdo" {
+					nreq++
+					if v, ok := m.GetUint(23); ok {
+						lastNum = int(v >> 4)
+					} else {
+						lastNum = 0
+					}
+				}
+			}
+			rec.Violation("C03/"+kind+"/observe-do/call-failed", fmt.Sprintf("%v (the connection sent %d requests for the resource, the last one for block %d of %d)", err, nreq, lastNum, (len(body)+bs-1)/bs), c)
 		} else if check("wrong-response-delivered") {
 			// other exchanges while the caller keeps its response
 			for k := 0; k < 4; k++ {
